@@ -15,7 +15,7 @@
     conforms to the declared argument types; when validation accepted the document, the
     observation equals the reference coercion (error <-> nothing called). *)
 From Coq Require Import List NArith ZArith Bool String.
-From ApiFu Require Import Base.Sexp Val.Values Val.FloatExact Val.CoerceModel Val.CoerceSpec Val.CoerceReasons Val.BridgeC04.
+From ApiFu Require Import Base.Sexp Val.Values Val.FloatExact Val.CoerceModel Val.CoerceSpec Val.CoerceReasons Val.BridgeC04 Val.Rfc3339.
 Import ListNotations.
 Open Scope string_scope.
 Open Scope list_scope.
@@ -540,6 +540,11 @@ Definition check (c : sexp) : sexp :=
               else if negb (forallb (fun p => jnum_wf_b (snd p)) raw) then v_bad "json-number-not-a-canonical-binary64"
               else if ahas n_Query E || ahas n_Res E then v_bad "name-reserved-for-the-c04-bridge-in-env"
               else if negb (forallb (fun s => ahas s T) strings) then v_bad "dt-table-incomplete"
+              (* the verdict of time.Time.UnmarshalText, as the model transcribes it (Val/Rfc3339.v),
+                 against the standard library's own verdict on every string of the case *)
+              else if negb (forallb (fun e : bytes * option bytes =>
+                                       Bool.eqb (rfc3339_go (fst e)) (match snd e with Some _ => true | None => false end)) T)
+                   then v_oracle_fail "datetime-verdict-differs-from-model" []
               else if existsb (fun d => match vd_default d with Some l => match lit_vars l with [] => false | _ => true end | None => false end) defs
                    then v_bad "variable-in-default"
               else
